@@ -1148,6 +1148,12 @@ def materialize(files, tag):
 def explore(chk, tier, model_ok, schema, search_mode=False):
     run = Run(chk, schema, model_ok)
     quick = tier == "quick"
+    phase = {}
+    tph = [time.time()]
+
+    def mark(name):
+        phase[name] = round(time.time() - tph[0], 1)
+        tph[0] = time.time()
     r = common.rng("C18")
     split_jobs = []
     samples = 0
@@ -1188,6 +1194,7 @@ def explore(chk, tier, model_ok, schema, search_mode=False):
             run.malformed(r, ir.module[0], 6 if quick else 30)
     run.bump("testdata-accepted", n_td)
     run.flush()
+    mark("testdata")
 
     # 2. feature modules + corpus + IRs stopped before each step
     mods = [("feature/" + m, FEATURE_MODULES, m) for m in FEATURE_MAINS] + corpus_modules()
@@ -1246,6 +1253,7 @@ def explore(chk, tier, model_ok, schema, search_mode=False):
     run.bump("modules-accepted", accepted)
     run.bump("modules-rejected", rejected)
     run.flush()
+    mark("modules")
 
     # 3. synthetic messages from the schema, as real objects
     rs = common.rng("C18-synth")
@@ -1268,9 +1276,11 @@ def explore(chk, tier, model_ok, schema, search_mode=False):
             run.flush()
     run.flush()
 
+    mark("synthetic")
     # 4. locations
     run.locations(common.rng("C18-loc"), 60 if quick else 2000)
     run.flush()
+    mark("locations")
 
     # 5. the split pipeline
     if split_jobs:
@@ -1290,6 +1300,8 @@ def explore(chk, tier, model_ok, schema, search_mode=False):
                                        "batched_jobs": len(batch_jobs), "batched_identical": ok_batch,
                                        "wall_s": round(time.time() - t0, 1)}
 
+    mark("split")
+    chk.extra["phase_s"] = phase
     # coverage report
     pairs = [c["name"] + "." + f["name"] for c in schema["classes"] for f in c["fields"]]
     unreached = [p for p in pairs if p not in run.reach]
